@@ -54,9 +54,14 @@ package cluster
 
 import (
 	"context"
+	"encoding/json"
 	"fmt"
 	"math/rand"
 	"net"
+	"os"
+	"runtime"
+	"runtime/debug"
+	"strconv"
 	"sort"
 	"strings"
 	"sync"
@@ -307,6 +312,15 @@ type c19Env struct {
 	lostReplyLeft int
 	pullErrors    int
 	rangeCalls    int
+	nonce         int
+}
+
+// sleep lets d pass plus a few nanoseconds that are different for every call:
+// goroutines released in the same instant then never wake in the same instant
+// (timers expiring together fire in an order the runtime does not reproduce).
+func (e *c19Env) sleep(d time.Duration) {
+	e.nonce++
+	time.Sleep(d + 400*time.Nanosecond + time.Duration(e.nonce%599)*time.Nanosecond)
 }
 
 const c19Addr = "etcd:2379"
@@ -344,7 +358,7 @@ func (e *c19Env) unaryHook(ctx context.Context, ph zzsimetcd.Phase, method strin
 		r.Eventf("rpc %s arrives", method)
 		slept := false
 		if e.sc.LatencyUs > 0 {
-			time.Sleep(time.Duration(e.sc.LatencyUs) * time.Microsecond)
+			e.sleep(time.Duration(e.sc.LatencyUs) * time.Microsecond)
 			slept = true
 		}
 		if method == "Range" {
@@ -352,7 +366,7 @@ func (e *c19Env) unaryHook(ctx context.Context, ph zzsimetcd.Phase, method strin
 			if e.rangeSlowLeft > 0 {
 				e.rangeSlowLeft--
 				r.Fault("etcd.range_slow")
-				time.Sleep(e.rangeSlowDur)
+				e.sleep(e.rangeSlowDur)
 				slept = true
 			}
 		}
@@ -382,7 +396,7 @@ func (e *c19Env) watchSendHook(streamID int64, resp *pb.WatchResponse) error {
 	if e.watchSlowLeft > 0 {
 		e.watchSlowLeft--
 		e.r.Fault("etcd.watch_slow_delivery")
-		time.Sleep(e.watchSlowDur)
+		e.sleep(e.watchSlowDur)
 		e.r.Yield("etcd.wake")
 	}
 	return nil
@@ -535,15 +549,18 @@ func c19Exec(r *sim.Run, sci interface{}) {
 		// the first segment of each direction is not delayed: the delivery
 		// goroutines pass their first gate (= get their canonical name) without
 		// having slept until the same instant
-		ds := []time.Duration{0}
+		// (and the two directions use different delays, so that their delivery
+		// goroutines do not wake in the same instant)
+		ds, dr := []time.Duration{0}, []time.Duration{0}
 		for _, d := range sc.NetDelayUs {
 			if d < 0 {
 				d = 0
 			}
 			ds = append(ds, time.Duration(d)*time.Microsecond)
+			dr = append(dr, time.Duration(d)*time.Microsecond*11/10+3*time.Microsecond+time.Duration(211))
 		}
 		n.PlanFor = func(id int, addr string) (simnet.DirPlan, simnet.DirPlan) {
-			return simnet.DirPlan{Delays: ds}, simnet.DirPlan{Delays: ds}
+			return simnet.DirPlan{Delays: ds}, simnet.DirPlan{Delays: dr}
 		}
 	}
 	env := &c19Env{r: r, sc: sc, net: n, store: zzsimetcd.NewStore()}
@@ -766,8 +783,9 @@ func c19Exec(r *sim.Run, sci interface{}) {
 					}
 					return
 				}
-				snap.at = r.Now()
 				snap.origFP = c19FPOf(snap.orig)
+				r.Yield("received") // consumers woken by the same delivery log in scheduler order
+				snap.at = r.Now()
 				s.snaps = append(s.snaps, snap)
 				shown := snap.val
 				if s.raw {
@@ -1136,4 +1154,34 @@ func TestVerifC19(t *testing.T) {
 			"select order inside syncer.run / clientv3 / grpc is chosen by the Go runtime (not by the seeded scheduler)",
 		},
 	})
+}
+
+// TestC19DebugDeterminism (development aid, only with C19_DEBUG_SEED set): runs
+// one seed several times with step tracing and writes the logs to /tmp.
+func TestC19DebugDeterminism(t *testing.T) {
+	seedStr := os.Getenv("C19_DEBUG_SEED")
+	if seedStr == "" {
+		t.Skip("C19_DEBUG_SEED not set")
+	}
+	seed, _ := strconv.ParseUint(seedStr, 10, 64)
+	logger.InitNop()
+	debug.SetGCPercent(-1)
+	n := 2
+	if v := os.Getenv("C19_DEBUG_N"); v != "" {
+		n, _ = strconv.Atoi(v)
+	}
+	first := ""
+	for i := 0; i < n; i++ {
+		sc0 := c19Gen(sim.NewRand(sim.Mix(seed, 1)), "quick")
+		b, _ := json.Marshal(sc0)
+		sc := &c19Scenario{}
+		json.Unmarshal(b, sc)
+		res := sim.Execute(t, sim.Options{Seed: sim.Mix(seed, 2), TraceSteps: true, KeepLog: 200000, MaxSteps: 100000}, func(r *sim.Run) { c19Exec(r, sc) })
+		os.WriteFile(fmt.Sprintf("/tmp/c19-trace-%d.txt", i), []byte(strings.Join(res.Log, "\n")), 0o644)
+		if i == 0 {
+			first = res.Hash
+		}
+		fmt.Printf("execution %d: hash %s outcome %s steps %d same=%v\n", i, res.Hash, res.Outcome, res.Steps, res.Hash == first)
+		runtime.GC()
+	}
 }
